@@ -606,6 +606,15 @@ func replay() {
 	text := rc.text()
 	fmt.Printf("replay %s: text %s (%d bytes) %s\n", rc.Sub, short(text), len(text), rc.opt())
 	switch rc.Sub {
+	case "history":
+		var h hrec
+		if err := mc.LoadReplay(chk.ReplayFile(), &h); err == nil && len(h.Seq) > 0 {
+			fresh := make([]*gozxing.BitMatrix, len(h.Menu))
+			for k, s := range h.Menu {
+				fresh[k], _ = qrcode.NewQRCodeWriter().Encode(s.text(), gozxing.BarcodeFormat_QR_CODE, s.W, s.H, s.hints())
+			}
+			historySeq(l, h.Menu, fresh, h.Seq)
+		}
 	case "image":
 		kind := "replay"
 		nat := 17 + 4*rc.Version + 2*effMargin(rc.Margin)
@@ -688,6 +697,8 @@ func main() {
 
 	runImage()
 	chk.Sample("image", ijob{m: pKanji, v: 7, lv: 2, sizeKind: 3, margin: 5, n: 40}.rcase())
+
+	runHistory()
 
 	printFailureSummary()
 	chk.Subspace("observed outcome classes (cases)", outcomeTally)
